@@ -754,6 +754,28 @@ def l6(prog: Program, chk: Check) -> None:
             n >= 20, "" if n >= 20 else "the module shrank below what was confirmed by hand")
 
 
+def l7(prog: Program, chk: Check) -> None:
+    chk.rule("L7", "the numerically integrated cell integral has a real and an imaginary part on "
+             "every path: both quadratures of CustomCorrelations.correlation_2d_integral lie on "
+             "every path to a return (a correlation function is complex in general; whether it is "
+             "real cannot be read off one sample)", floor=1)
+    u = prog.unit(f"{BC}:CustomCorrelations.correlation_2d_integral")
+    g = CFG(u.node, exc_edges=False)
+    chk.saw(u, g)
+    quads = [n.id for n in g.nodes if not n.copy_of and any(
+        (dotted(c.func) or "").split(".")[-1] in ("dblquad", "quad", "nquad") for c in n.calls())]
+    rets = [n.id for n in g.nodes if n.kind == "stmt" and isinstance(n.ast, ast.Return)]
+    if len(quads) < 2 or not rets:
+        raise AnalysisError(f"L7: expected two quadrature calls in {u.qual}, found {len(quads)}")
+    for q in quads:
+        p = g.find_path([g.entry], lambda x: x in rets, blocked=lambda x, q=q: x == q)
+        chk.add("L7", u, f"quadrature at line {g.nodes[q].lineno} on every path", p is None,
+                "" if p is None else
+                "a return is reachable without this integration: one part of the complex cell "
+                "integral is dropped on that path",
+                g.nodes[q].ast, path=None if p is None else g.describe_path(p, u.loc)[-5:])
+
+
 def run(prog: Program, chk: Check) -> None:
     chk.explanation = (
         "Decides, by a sibling cross-check, that CustomSD's closed-form cell integrals are the "
@@ -770,8 +792,9 @@ def run(prog: Program, chk: Check) -> None:
     chk.assumptions = ["scipy.integrate.dblquad(func, a, b, gfun, hfun) integrates y from "
                        "gfun(x) to hfun(x) for x in [a, b]",
                        "eta'' = C and eta(0) = eta'(0) = 0 (kernel (e^{-iwt} - 1 + iwt)/w^2)"]
-    l1_l2(prog, chk)
-    l3(prog, chk)
-    l4(prog, chk)
-    l5(prog, chk)
-    l6(prog, chk)
+    chk.call(l1_l2, prog, chk)
+    chk.call(l3, prog, chk)
+    chk.call(l4, prog, chk)
+    chk.call(l5, prog, chk)
+    chk.call(l6, prog, chk)
+    chk.call(l7, prog, chk)
